@@ -205,7 +205,10 @@ def stream_histories(ctx, n_cases: int):
             for name in info["first"]:
                 load_queries.append((idx, name, info["parsed"][name]))
     # read-back correspondence
-    lq = run_driver(["st_load " + sl.jv_tok(e) for _, _, e in load_queries])
+    qtoks = [sl.jv_tok(e) for _, _, e in load_queries]
+    lq_ok = run_driver(["st_load " + t for t in qtoks if not sl.has_inf(t)])
+    it = iter(lq_ok)
+    lq = ["(infinity in the file: outside the model)" if sl.has_inf(t) else next(it) for t in qtoks]
     pos = {}
     for (idx, name, _), ml in zip(load_queries, lq):
         k = pos.get(idx, 0)
